@@ -56,6 +56,11 @@ def run(tier, seed, res, lean):
         for b in co_bad[:3]:
             res.violations.append(Violation('c12-concurrent-open', b['msg'][:400], {'suite': 'S-CRASH/concurrent-open', **b}))
         res.coverage['concurrent_open_runs'] = co_runs
+        # the generation of a big column shard killed several times in a row (a real death inside the user function)
+        ck_runs, ck_bad = suite_crash.run_columns_kills(seed)
+        for b in ck_bad[:3]:
+            res.violations.append(Violation('c12-columns-kills', b['msg'][:400], {'suite': 'S-CRASH/columns-kills', **b}))
+        res.coverage['columns_kill_runs'] = ck_runs
         res.coverage.update({
             'evaluations': len(jobs), 'distinct_nontrivial': checked, 'rule': RULE, 'programs': len(combos),
             'disagreements_checked': 0, 'exhaustive': True,
